@@ -175,12 +175,27 @@ def build(ctx, cfg, seed=0):
     return config
 
 
+def _zero_rows(spec, n, rs):
+    """rows that get a weight of exactly 0.0: an int (that many seeded rows) or an explicit list of row numbers"""
+    if spec is None:
+        return np.zeros(0, dtype=int)
+    if isinstance(spec, (int, np.integer)):
+        return np.sort(rs.choice(n, int(spec), replace=False))
+    idx = np.asarray(list(spec), dtype=int)
+    if idx.size and (idx.min() < 0 or idx.max() >= n):
+        raise ValueError("zero-weight row outside the sample: %r (n=%d)" % (spec, n))
+    return idx
+
+
 def make_samples(config, seed, n_data=40, n_phsp=60, n_bg=12, weights="mixed", bg_weights=None, phsp_weights="mixed",
-                 cfit=False, data_shape=(4.16, 0.06)):
+                 cfit=False, data_shape=(4.16, 0.06), zero_weights=None):
     """toy data / phase-space / background samples in memory.
     weights: None (unit) | 'mixed' (user data weights of both signs, sum > 0)
     bg_weights: None (library uses -bg_weight) | 'user' (per-event negative weights supplied by the user)
-    phsp_weights: None | 'mixed' (positive efficiency-like weights with a few small negative ones)"""
+    phsp_weights: None | 'mixed' (positive efficiency-like weights with a few small negative ones)
+    zero_weights: None | {"data": k or [rows], "bg": ..., "phsp": ...}: these rows carry a weight of EXACTLY 0.0 (sWeights / selection weights
+                  stored as zeros); drawn from a separate seeded stream after everything else, so all other numbers of the sample are the
+                  same as without the option.  Zero background weights need bg_weights='user'."""
     rs = np.random.RandomState(seed)
     with quiet():
         data = config.data.cal_angle(gen_three_body(rs, n_data, data_shape))
@@ -203,6 +218,20 @@ def make_samples(config, seed, n_data=40, n_phsp=60, n_bg=12, weights="mixed", b
         data["eff_value"] = rs.uniform(0.6, 1.0, n_data)
         phsp["bg_value"] = rs.uniform(0.5, 1.5, n_phsp)
         phsp["eff_value"] = rs.uniform(0.6, 1.0, n_phsp)
+    if zero_weights:
+        unknown = set(zero_weights) - {"data", "bg", "phsp"}
+        if unknown:
+            raise ValueError("zero_weights: unknown sample %r" % sorted(unknown))
+        rz = np.random.RandomState(seed + 90001)
+        for smp, key, n in ((data, "data", n_data), (bg, "bg", n_bg), (phsp, "phsp", n_phsp)):
+            rows = _zero_rows(zero_weights.get(key), n, rz)
+            if rows.size == 0:
+                continue
+            if smp is None or (key == "bg" and "weight" not in smp):
+                raise ValueError("zero weights requested for a sample without per-event weights: " + key)
+            w = np.array(smp["weight"], dtype=float) if "weight" in smp else np.ones(n)
+            w[rows] = 0.0
+            smp["weight"] = w
     return data, phsp, bg
 
 
@@ -295,6 +324,143 @@ def oracle_nll(config, family, data, phsp, bg, frac=0.23, w_bkg=BG_WEIGHT):
     fn = nll_cfit if family == "cfit" else nll_cfit_ext
     p, _, _ = cfit_prob(f, eff, bgv, v, fy, effy, bgy, frac)
     return float(fn(w, f, eff, bgv, v, fy, effy, bgy, frac)), float(np.min(p))
+
+
+# ------------------------------------------------------------------------------------------------ minimiser interception (C08)
+
+
+def _limit(v):
+    """one limit of a bound as handed to a minimiser: None / +-inf / nan mean 'no limit'"""
+    if v is None:
+        return None
+    v = float(v)
+    return None if (np.isinf(v) or np.isnan(v)) else v
+
+
+def _bounds_list(b):
+    """scipy's `bounds` argument (sequence of (lo, hi) or a scipy.optimize.Bounds object) -> [(lo|None, hi|None)] or None"""
+    if b is None:
+        return None
+    if hasattr(b, "lb") and hasattr(b, "ub"):
+        lb, ub = np.atleast_1d(b.lb), np.atleast_1d(b.ub)
+        return [(_limit(lo), _limit(hi)) for lo, hi in zip(lb, ub)]
+    return [(_limit(p[0]), _limit(p[1])) for p in (tuple(q) for q in b)]
+
+
+@contextlib.contextmanager
+def spy_minimize(fitmod, vm):
+    """Intercept `scipy.optimize.minimize` AS IMPORTED BY the repository's fit module (the module attribute `fit.minimize`), in this
+    process only, delegating every call unchanged to the real function.  Each call is recorded as
+        {"method", "names": trainable parameter names at the time of the call, "bounds": explicit `bounds` argument (normalised) or None,
+         "transforms": {name: (lower, upper)} of the variable transformations active in vm.bnd_dic at the time of the call}
+    so that a contract can state which limits actually reach the minimiser."""
+    import inspect
+
+    real = fitmod.minimize
+    sig = inspect.signature(real)
+    calls = []
+
+    def spy(*args, **kwargs):
+        rec = {"method": None, "names": list(vm.trainable_vars), "bounds": None, "transforms": {}, "unreadable": None}
+        try:
+            ba = sig.bind(*args, **kwargs).arguments
+            rec["method"] = ba.get("method")
+            rec["bounds"] = _bounds_list(ba.get("bounds"))
+            rec["transforms"] = {str(k): (_limit(getattr(v, "lower", None)), _limit(getattr(v, "upper", None))) for k, v in dict(vm.bnd_dic).items()}
+        except Exception as ex:  # noqa: BLE001 - the recorder must never change what the minimiser sees
+            rec["unreadable"] = repr(ex)
+        calls.append(rec)
+        return real(*args, **kwargs)
+
+    fitmod.minimize = spy
+    try:
+        yield calls
+    finally:
+        fitmod.minimize = real
+
+
+def limits_reaching_minimiser(call, name):
+    """(explicit, transform): the (lo, hi) pair handed over for parameter `name` in one recorded call, by either mechanism (None if not used)"""
+    explicit = None
+    if call["bounds"] is not None and name in call["names"]:
+        i = call["names"].index(name)
+        if i < len(call["bounds"]):
+            explicit = call["bounds"][i]
+    return explicit, call["transforms"].get(name)
+
+
+# ------------------------------------------------------------------------------------------------ exact linear algebra reference (C09)
+
+
+def exact_inverse(h, dps=60):
+    """inverse of the float64 matrix h (read as exact rationals) in `dps`-digit arithmetic, rounded back to float64.
+    With dps = 60 the reference is correct to ~1e-16 relative for condition numbers up to ~1e40: independent of numpy.linalg."""
+    import mpmath
+
+    h = np.asarray(h, dtype=float)
+    with mpmath.workdps(dps):
+        m = mpmath.matrix(h.tolist())
+        inv = m ** -1
+        return np.array([[float(inv[i, j]) for j in range(h.shape[1])] for i in range(h.shape[0])], dtype=float)
+
+
+def random_orthogonal(rs, n):
+    """seeded Haar-like orthogonal matrix (QR of a Gaussian matrix, column signs fixed)"""
+    q, r = np.linalg.qr(rs.normal(size=(n, n)))
+    return q * np.sign(np.diag(r))
+
+
+def spectrum_hessian(rs, eigenvalues):
+    """symmetric positive-definite H = Q diag(eigenvalues) Q^T with a seeded random orthogonal basis"""
+    lam = np.asarray(eigenvalues, dtype=float)
+    q = random_orthogonal(rs, len(lam))
+    h = (q * lam) @ q.T
+    return 0.5 * (h + h.T)
+
+
+def scaled_hessian(rs, sigmas, corr_spectrum=(0.5, 1.5)):
+    """H = S^-1 C^-1 S^-1: parameters known to very different precisions sigma_i (a mass known to 1e-5 next to couplings known to 1-10)
+    with a well-conditioned correlation-like matrix C (random orthogonal basis, eigenvalues in corr_spectrum)"""
+    s = np.asarray(sigmas, dtype=float)
+    n = len(s)
+    q = random_orthogonal(rs, n)
+    c_inv = (q * (1.0 / rs.uniform(corr_spectrum[0], corr_spectrum[1], n))) @ q.T
+    h = c_inv / np.outer(s, s)
+    return 0.5 * (h + h.T)
+
+
+class QuadraticFCN:
+    """stand-in likelihood with an exactly known Hessian: NLL(x) = 1/2 (x-x0)^T H (x-x0) over the trainable parameters of `vm`
+    (what cal_hesse_error / cal_hesse_correct / get_params_error need from an FCN: vm, get_params, __call__, nll_grad, nll_grad_hessian)"""
+
+    def __init__(self, vm, hess, tf):
+        self.vm = vm
+        self.hess = np.asarray(hess, dtype=float)
+        self.x0 = np.array(vm.get_all_val(), dtype=float)
+        self._tf = tf
+        self.n_hessian_calls = 0
+
+    def get_params(self, trainable_only=False):
+        return self.vm.get_all_dic(trainable_only)
+
+    def _x(self, x):
+        if isinstance(x, dict):
+            self.vm.set_all(x)
+            return np.array(self.vm.get_all_val(), dtype=float)
+        return np.asarray(x, dtype=float)
+
+    def __call__(self, x={}):  # noqa: B006 - signature of the real FCN
+        d = self._x(x) - self.x0
+        return float(0.5 * d @ self.hess @ d)
+
+    def nll_grad(self, x={}):  # noqa: B006
+        d = self._x(x) - self.x0
+        return self._tf.constant(0.5 * d @ self.hess @ d), self._tf.constant(self.hess @ d)
+
+    def nll_grad_hessian(self, x={}, batch=None):  # noqa: B006
+        self.n_hessian_calls += 1
+        d = self._x(x) - self.x0
+        return self._tf.constant(0.5 * d @ self.hess @ d), self._tf.constant(self.hess @ d), self._tf.constant(self.hess)
 
 
 # ------------------------------------------------------------------------------------------------ finite differences
